@@ -2,7 +2,7 @@ import Lean.Data.Json
 import D2P.Model.Output
 import D2P.Model.Iterators
 import D2P.Model.Lifecycle
-import D2P.Props.C01
+import D2P.Check.C01
 /-!
 # JSON line protocol between the Python harness and the model
 -/
